@@ -20,7 +20,9 @@ package dtls
 
 import (
 	"bytes"
+	"encoding/json"
 	"fmt"
+	"sync"
 	"sync/atomic"
 	"testing"
 	"time"
@@ -458,8 +460,119 @@ func c16StreamCheck(t vh.Fataler, rec *vh.Rec, c c16StreamCase) {
 	}
 	if key != "" {
 		atomic.StoreInt32(&c16StreamFailed, 1)
+		// Report the smallest failing case known for this key: rapid's shrinking is hampered by the
+		// real goroutine schedule of the hb mode (a smaller case may pass by luck), so the first
+		// failure is also reduced by hand, and a larger failing case never replaces a smaller one.
+		c16StreamBestMu.Lock()
+		best, known := c16StreamBest[key]
+		c16StreamBestMu.Unlock()
+		if !known && key != "stream:reader-stalled" {
+			best = c16StreamReduce(c, key)
+		} else if !known || c16StreamSize(c) < c16StreamSize(best) {
+			best = c
+		}
+		c16StreamBestMu.Lock()
+		c16StreamBest[key] = best
+		c16StreamBestMu.Unlock()
+		if c16StreamSize(best) < c16StreamSize(c) {
+			for i := 0; i < 24; i++ {
+				if k, m, _ := c16StreamRun(best); k == key {
+					c, msg = best, m
+					break
+				}
+			}
+		}
 		rec.Violation(t, key, c, "%s; mode=%s max=%d items=%d reads=%v", msg, c.Mode, c.Max, len(c.Items), c.Reads)
 	}
+}
+
+var (
+	c16StreamBestMu sync.Mutex
+	c16StreamBest   = map[string]c16StreamCase{}
+)
+
+func c16StreamSize(c c16StreamCase) int {
+	b, _ := json.Marshal(c)
+	return len(b)
+}
+
+func c16StreamFails(c c16StreamCase, key string) bool {
+	runs := 1
+	if c.Mode == "hb" {
+		runs = 3
+		if len(c.Items) <= 60 {
+			runs = 12
+		}
+	}
+	for i := 0; i < runs; i++ {
+		if k, _, _ := c16StreamRun(c); k == key {
+			return true
+		}
+	}
+	return false
+}
+
+// c16StreamReduce is a small delta-debugging pass over a failing case (bounded by wall time; the
+// result is only used if it still fails with the same key).
+func c16StreamReduce(c c16StreamCase, key string) c16StreamCase {
+	end := time.Now().Add(8 * time.Second)
+	try := func(cand c16StreamCase) bool {
+		if time.Now().After(end) || len(cand.Reads) == 0 {
+			return false
+		}
+		return c16StreamFails(cand, key)
+	}
+	clone := func(c c16StreamCase) c16StreamCase {
+		c.Items = append([]c16Item(nil), c.Items...)
+		c.Reads = append([]int(nil), c.Reads...)
+		return c
+	}
+	for chunk := (len(c.Items) + 1) / 2; chunk >= 1; chunk /= 2 {
+		for start := 0; start < len(c.Items); {
+			e := start + chunk
+			if e > len(c.Items) {
+				e = len(c.Items)
+			}
+			cand := clone(c)
+			cand.Items = append(cand.Items[:start], cand.Items[e:]...)
+			if try(cand) {
+				c = cand
+			} else {
+				start += chunk
+			}
+		}
+	}
+	for _, r := range [][]int{{1}, {c.Reads[0]}, {c.Reads[len(c.Reads)-1]}} {
+		cand := clone(c)
+		cand.Reads = r
+		if try(cand) {
+			c = cand
+			break
+		}
+	}
+	for i := range c.Items {
+		if c.Items[i].N > 1 {
+			cand := clone(c)
+			cand.Items[i].N = 1
+			if try(cand) {
+				c = cand
+			}
+		}
+	}
+	for _, m := range []int{4, 40, 1024} {
+		if m < c.Max && (c.HBLen > 0 || m >= len(defaultConfig.Heartbeat)) {
+			cand := clone(c)
+			cand.Max = m
+			if cand.HBLen > m {
+				cand.HBLen = m
+			}
+			if try(cand) {
+				c = cand
+				break
+			}
+		}
+	}
+	return c
 }
 
 // c16Shorten keeps evidence samples small.
